@@ -429,6 +429,8 @@ type Clause struct {
 	Src  string
 	Ord  int
 	Mods []*Node
+	// BodyOnly: an ensures clause checked against the body (also when the contract is assumed) and never used at call sites
+	BodyOnly bool
 }
 
 type LoopSpec struct {
@@ -513,7 +515,7 @@ type specFun struct {
 
 var declFunRe = regexp.MustCompile(`^\(declare-fun\s+(\S+)\s+\((.*)\)\s+(\(.*\)|\S+)\s*\)$`)
 var guardedRe = regexp.MustCompile(`^guarded\s+([A-Za-z_][A-Za-z0-9_]*)\.([A-Za-z_][A-Za-z0-9_]*)\s*:\s*(.*)$`)
-var clauseHead = regexp.MustCompile(`^(requires|ensures|modifies|invariant|decreases|aborts)(\[[A-Za-z0-9_,. ]+\])?\s+(.*)$`)
+var clauseHead = regexp.MustCompile(`^(requires|bodyensures|ensures|modifies|invariant|decreases|aborts)(\[[A-Za-z0-9_,. ]+\])?\s+(.*)$`)
 var funcHead = regexp.MustCompile(`^func\s+(\S+)\s*$`)
 var predHead = regexp.MustCompile(`^pred\s+([A-Za-z_][A-Za-z0-9_]*)\s*\(([^)]*)\)\s*:=\s*(.*)$`)
 var ghostHead = regexp.MustCompile(`^ghostcount\s+([A-Za-z_][A-Za-z0-9_]*)\s*\(\s*([A-Za-z_][A-Za-z0-9_]*)\s*\)\s*:=\s*(.*)$`)
@@ -693,6 +695,12 @@ func (db *SpecDB) loadContractFile(path, pkgPath string) error {
 			}
 			m := clauseHead.FindStringSubmatch(it)
 			c := &Clause{Kind: m[1], Tags: parseTags(m[2]), Src: m[3]}
+			if c.Kind == "bodyensures" {
+				// checked against the body only (also of an assumed function), never used at call sites
+				c.Kind = "ensures"
+				c.BodyOnly = true
+				m[1] = "ensures"
+			}
 			ord[m[1]]++
 			c.Ord = ord[m[1]]
 			if m[1] == "modifies" {
